@@ -133,6 +133,37 @@ class MyMapping(collections.abc.Mapping):
         return 'MyMapping(%r)' % (self._d,)
 
 
+class Shape:
+    def __init__(self, name, tag=None):
+        self.name = name
+        if tag is not None:
+            self.tag = tag
+
+
+class Label:
+    def __init__(self, tag):
+        self.tag = tag
+
+
+# two printers registered through overlapping PREDICATES: the first registered one that accepts a value wins,
+# whatever was printed before (a value only the second predicate accepts must not change that)
+@P.register_pretty(predicate=lambda v: isinstance(v, Shape))
+def _pretty_shape(v, ctx):
+    return P.pretty_call(ctx, Shape, v.name)
+
+
+@P.register_pretty(predicate=lambda v: type(v) in (Shape, Label) and hasattr(v, 'tag'))
+def _pretty_tagged(v, ctx):
+    return P.pretty_call(ctx, 'tagged', type(v).__name__, v.tag)
+
+
+class WithSettings:
+    """a corpus entry printed with explicit settings: print_one(WithSettings(v, width=..)) = pformat(v, width=..)"""
+
+    def __init__(self, value, **kw):
+        self.value, self.kw = value, kw
+
+
 def _rec():
     r = [1]
     r.append(r)
@@ -202,6 +233,15 @@ FACTORIES = [
     ('ordereddict-of-mappings', lambda: collections.OrderedDict([('m', MyMapping({'k': 1})), ('d', {'z': 1, 'a': 2})])),
     ('deque-of-deques', lambda: collections.deque([collections.deque([3, 1, 2], maxlen=3), collections.deque()], maxlen=2)),
     ('namespace-of-containers', lambda: types.SimpleNamespace(z=[3, 1], a={'b': (1, [2])})),
+    # the same call with non-default settings: key sorting with keys that cannot be ordered among themselves
+    ('sorted-mixed-keys', lambda: WithSettings({"s": [], ('t', False): 1, 3: 1, None: 2, b'x': 3, 2.5: 0}, sort_dict_keys=True, width=200)),
+    ('sorted-mixed-keys-nested', lambda: WithSettings([{1: 'a', 'one': 'b', (1,): 'c'}, {'z': {None: 1, 'n': 2, 0: 3}}], sort_dict_keys=True)),
+    ('sorted-comparable-keys', lambda: WithSettings({'b': 1, 'a': {'d': 1, 'c': 2}, 'c': 0}, sort_dict_keys=True)),
+    ('narrow-truncated', lambda: WithSettings({'k': list(range(8)), 'j': ('x' * 30, 'y')}, width=20, max_seq_len=3, depth=2)),
+    ('shape-plain', lambda: Shape('circle')),
+    ('label-only-second-predicate', lambda: Label('t1')),
+    ('shape-tagged-both-predicates', lambda: Shape('square', tag='t2')),
+    ('shapes-nested', lambda: [Label('t3'), Shape('tri', tag='t4'), {'k': Shape('dot')}]),
     ('account', lambda: Account('ann', 10)),
     ('savings-account', lambda: SavingsAccount('di', 2)),
     ('accounts-nested', lambda: {'accounts': [Account('cy', 1), SavingsAccount('di', 2)]}),
@@ -225,6 +265,8 @@ def projection():
 
 
 def print_one(v, **kw):
+    if isinstance(v, WithSettings):
+        v, kw = v.value, dict(v.kw, **kw)
     with warnings.catch_warnings(record=True) as w:
         warnings.simplefilter('always')
         try:
